@@ -229,7 +229,10 @@ class CollisionArray:
                     with h5py.File(str(filename), "r") as file:
 
                         metadata = file["metadata"]
-                        size = metadata.attrs["Basis Size"]
+                        ## Plain int: the attribute comes back as whatever integer
+                        ## type the file was written with, and e.g. an unsigned
+                        ## 64-bit value turns later index arithmetic into floats
+                        size = int(metadata.attrs["Basis Size"])
 
                         if grid.N > size:
                             raise CollisionLoadError(
